@@ -392,6 +392,8 @@ impl DB {
         let get_result = parking_lot::MutexGuard::unlocked_fair(
             &mut db_fields_guard,
             || -> RainDBResult<Option<Vec<u8>>> {
+                #[cfg(raindb_verif)]
+                crate::verif_hooks::sched::point("get:after_unlock");
                 let internal_key = InternalKey::new_for_seeking(key.to_vec(), snapshot);
 
                 // Check the memtable first
@@ -1230,14 +1232,20 @@ impl DB {
                     WAL and to the memtable.
                     */
 
+                    #[cfg(raindb_verif)]
+                    crate::verif_hooks::sched::point("write:before_wal");
                     // Write the changes to the write-ahead log first
                     unsafe {
                         // SAFETY: RainDB only allows one writer thread at a time.
                         (*self.wal().get()).append(&Vec::<u8>::from(&write_batch))?;
                     }
 
+                    #[cfg(raindb_verif)]
+                    crate::verif_hooks::sched::point("write:after_wal");
                     // Write the changes to the memtable
                     DB::apply_batch_to_memtable(&**self.memtable(), &write_batch);
+                    #[cfg(raindb_verif)]
+                    crate::verif_hooks::sched::point("write:after_memtable");
 
                     Ok(())
                 },
@@ -1536,6 +1544,8 @@ impl DB {
             memtable.insert(internal_key, value);
 
             curr_sequence_num += 1;
+            #[cfg(raindb_verif)]
+            crate::verif_hooks::sched::point("write:between_inserts");
         }
     }
 
@@ -1766,6 +1776,8 @@ impl DB {
         parking_lot::MutexGuard::<'_, GuardedDbFields>::unlocked_fair(
             db_fields_guard,
             || -> RainDBResult<()> {
+                #[cfg(raindb_verif)]
+                crate::verif_hooks::sched::point("flush:building");
                 DB::build_table_from_iterator(
                     &db_state.options,
                     &mut file_metadata,
@@ -2087,6 +2099,8 @@ impl DB {
         names that will not collide with newly created files so it is safe to release the lock.
         */
         parking_lot::MutexGuard::<'_, GuardedDbFields>::unlocked_fair(db_fields_guard, move || {
+            #[cfg(raindb_verif)]
+            crate::verif_hooks::sched::point("gc:before_delete");
             for file in files_to_delete {
                 log::info!("Removing obsolete file: {:?}", &file);
                 if let Err(error) = filesystem_provider.remove_file(&file) {
